@@ -687,6 +687,13 @@ def install(E):
         return [(P, P.new("list", tuple(Str(f) for f in fields)))]
 
     # ------------------------------------------------------------------ spec functions
+    @reg("us", True)
+    def _us(E, P, ctx, x):
+        """microseconds since the naive epoch of a datetime / length of a timedelta (spec function)"""
+        if isinstance(x, Opaque) and x.tag in ("dt", "td"):
+            return [(P, Num(x.payload[0], True))]
+        raise SpecError("us(%r)" % (x,))
+
     @reg("alloc", True)
     def _alloc(E, P, ctx, x):
         return [(P, Bool(z3.Select(E.alloc_arr(P), x.t)))]
